@@ -194,6 +194,9 @@ func driverMain() {
 		if hi == 0 {
 			h = history{Index: "idx", Steps: []step{{"flush", 2}, {"flush", 1}, {"rotate", 0}, {"flush", 2}}}
 		}
+		if hi%2 == 1 {
+			h.Desc = true // late-arriving data: every flush holds OLDER timestamps than the one before
+		}
 		root, _ := filepath.Abs(filepath.Join(cfg.Out, fmt.Sprintf("h%d", hi)))
 		_ = os.MkdirAll(root, 0o755)
 		hf := filepath.Join(root, "history.json")
@@ -284,6 +287,13 @@ func driverMain() {
 				if t != "" && t != "Other" {
 					tl = append(tl, "("+t+")")
 				}
+			}
+			if h.Desc {
+				// late-arriving data: whether the block of the flush IN PROGRESS is already searchable also depends on the
+				// time range recorded in the previous .sfm (the searcher schedules blocks by the segment's recorded range);
+				// the protocol model does not carry time ranges, so these crash points are judged by the oracle only
+				sum.Count("crash_points_oracle_only(descending timestamps)")
+				continue
 			}
 			cases = append(cases, fmt.Sprintf("(%s, %s)", vhlib.CoqList(tl), blocksCoq(h, obs)))
 			if len(cases) >= 200 {
@@ -464,6 +474,37 @@ func recoverAt(self, run1, hf string, ops []fsop, k int, sum *vhlib.Summary, h h
 	}
 	if nIn != 0 && nIn != len(inprog) {
 		sum.Fail("flush_in_progress_partially_visible", fmt.Sprintf("crash point %d: %d of %d events of the flush in progress are visible", k, nIn, len(inprog)), c)
+	}
+	// a query bounded to the time range of a visible flush must return that flush's events
+	{
+		next := 1
+		for i, st := range h.Steps {
+			if st.Kind != "flush" {
+				continue
+			}
+			allVisible := true
+			for j := 0; j < st.N; j++ {
+				allVisible = allVisible && got[next+j] > 0
+			}
+			if allVisible && rec.Bounded != nil {
+				have := map[int]bool{}
+				for _, id := range rec.Bounded[i] {
+					have[id] = true
+				}
+				for j := 0; j < st.N; j++ {
+					if !have[next+j] {
+						if i > done {
+							// the flush in progress: its block summary is appended, the .sfm still records the previous time range
+							sum.Fail("in_progress_block_outside_recorded_time_range", fmt.Sprintf("crash point %d: event %d of the flush in progress is returned by the unbounded `*` but not by `*` bounded to its own time range (the .sfm still holds the previous earliest/latest)", k, next+j), c)
+							break
+						}
+						sum.Fail("recovered_event_missing_from_time_bounded_query", fmt.Sprintf("crash point %d: event %d is returned by the unbounded `*` after restart but not by `*` bounded to the time range of its own flush (got %v)", k, next+j, rec.Bounded[i]), c)
+						break
+					}
+				}
+			}
+			next += st.N
+		}
 	}
 	if rec.CountErr != "" {
 		sum.Fail("query_error_after_crash", fmt.Sprintf("crash point %d: stats count error %q", k, rec.CountErr), c)
